@@ -9,21 +9,42 @@ import (
 // fillRandom populates m with random field values (every kind, lists, maps, oneofs, nested
 // messages down to depth).  Floats are finite so that proto.Equal is reflexive on the result.
 func fillRandom(m protoreflect.Message, r *rand.Rand, depth int) {
+	fillShaped(m, r, depth, shape{skipPct: 35, minList: 0, maxList: 2})
+}
+
+// shape says how densely a message is populated.
+type shape struct {
+	skipPct          int // chance of leaving a field unset
+	minList, maxList int // elements of repeated fields / maps
+}
+
+func shapeOf(name string) (shape, bool) {
+	switch name {
+	case "full":
+		return shape{skipPct: 0, minList: 2, maxList: 3}, true
+	case "sparse":
+		return shape{skipPct: 70, minList: 1, maxList: 1}, true
+	}
+	return shape{}, false
+}
+
+func fillShaped(m protoreflect.Message, r *rand.Rand, depth int, sh shape) {
+	n := func() int { return sh.minList + r.Intn(sh.maxList-sh.minList+1) }
 	fds := m.Descriptor().Fields()
 	for i := 0; i < fds.Len(); i++ {
 		fd := fds.Get(i)
-		if r.Intn(100) < 35 {
+		if r.Intn(100) < sh.skipPct {
 			continue
 		}
 		switch {
 		case fd.IsMap():
 			mp := m.Mutable(fd).Map()
-			for j, n := 0, r.Intn(3); j < n; j++ {
+			for j, n := 0, n(); j < n; j++ {
 				key := randScalar(fd.MapKey(), r).MapKey()
 				if fd.MapValue().Message() != nil {
 					v := mp.NewValue()
 					if depth > 0 {
-						fillRandom(v.Message(), r, depth-1)
+						fillShaped(v.Message(), r, depth-1, sh)
 					}
 					mp.Set(key, v)
 				} else {
@@ -32,11 +53,11 @@ func fillRandom(m protoreflect.Message, r *rand.Rand, depth int) {
 			}
 		case fd.IsList():
 			l := m.Mutable(fd).List()
-			for j, n := 0, r.Intn(3); j < n; j++ {
+			for j, n := 0, n(); j < n; j++ {
 				if fd.Message() != nil {
 					e := l.NewElement()
 					if depth > 0 {
-						fillRandom(e.Message(), r, depth-1)
+						fillShaped(e.Message(), r, depth-1, sh)
 					}
 					l.Append(e)
 				} else {
@@ -47,7 +68,7 @@ func fillRandom(m protoreflect.Message, r *rand.Rand, depth int) {
 			if depth <= 0 {
 				continue
 			}
-			fillRandom(m.Mutable(fd).Message(), r, depth-1)
+			fillShaped(m.Mutable(fd).Message(), r, depth-1, sh)
 		default:
 			m.Set(fd, randScalar(fd, r))
 		}
